@@ -72,8 +72,8 @@ impl Lexer {
     /// This function will update the current character and the position
     /// of the Lexer struct.
     fn consume_char(&mut self) {
-        // Get the next character
-        if let Some(ch) = self.peek(1) {
+        // Move past the current character
+        if let Some(ch) = self.current() {
             // Update the position
             if ch == '\n' {
                 self.row += 1;
@@ -82,8 +82,6 @@ impl Lexer {
                 self.col += 1;
             }
             self.pos += 1;
-        } else {
-            self.pos = self.source.len();
         }
     }
 
@@ -146,8 +144,7 @@ impl Lexer {
     ///
     /// This function will return the current position of the lexer.
     fn get_pos(&self) -> Position {
-        let column = if self.col == 0 { 0 } else { self.col - 1 };
-        Position::new(self.row, column, self.pos)
+        Position::new(self.row, self.col, self.pos)
     }
 
     /// Lex a unicode escape code.
